@@ -99,6 +99,8 @@ def bytes_method(I: Interp, recv: VBytes, name: str, args: list[V], kwargs: dict
     if isinstance(recv, AsciiBytes):
         if name == "decode":
             return VStr(t=recv.s)
+        if name == "hex":
+            return VStr()
         raise Unsupported(f"ascii-bytes method {name}")
     if name == "hex":
         c = recv.concrete()
@@ -188,6 +190,14 @@ STRIP = z3.Function("STRIP", z3.StringSort(), z3.StringSort())
 
 
 def strip_term(I: Interp, t: Any) -> Any:
-    """str.strip(): defined here only by the facts C19 needs (DESIGN C19):
-    strip(h ++ ws) == h when h contains no whitespace and ws is whitespace-only."""
+    """str.strip(): defined here only by the fact C19 needs (DESIGN C19):
+    strip(h ++ ws) == h when h is a hex string (no whitespace) and ws is whitespace-only."""
+    t = z3.simplify(t)
+    if z3.is_app(t) and t.decl().kind() == z3.Z3_OP_SEQ_CONCAT and t.num_args() == 2:
+        h, ws = t.arg(0), t.arg(1)
+        if z3.is_string_value(ws) and ws.as_string().strip() == "" and z3.is_app(h) \
+                and h.decl().eq(HEX):
+            return h
+    if z3.is_string_value(t):
+        return z3.StringVal(t.as_string().strip())
     return STRIP(t)
